@@ -300,6 +300,21 @@ def rule_selection(ctx, repo):
     ver = [(g, b) for g, b in arms.items() if 'witver' in g]
     ok = any(g == 'witver != 0' and any('CBitcoinAddressError' in x for x in b) for g, b in ver)
     r.check(ok, 'bech32:version', f2.site, 'versions other than 0 are refused with the address error', 'witness-version handling is %s' % ver)
+    # ... and refused before a class is chosen: every assignment of a segwit v0 class happens where the version is known to be 0
+
+    def vcond(test):
+        g = canon_guard(test, repo, f2.module)
+        if g == 'witver != 0':
+            return frozenset(['other']), frozenset(['v0'])
+        if g == 'witver == 0':
+            return frozenset(['v0']), frozenset(['other'])
+        return frozenset(), frozenset()
+    mfv = flow.run_must(f2.node, cond=vcond)
+    for n in ast.walk(f2.node):
+        if isinstance(n, ast.Assign) and norm(n.targets[0]) == 'self.__class__':
+            facts = mfv.at.get(id(n), frozenset())
+            r.check('v0' in facts, 'bech32:version-first:%s' % norm(n.value), common.site_of(f2, n), 'chosen only for witness version 0',
+                    '`%s` is reached without the witness version having been tested: a version 1..16 program of this length becomes a version-0 address object (and prints as one)' % norm(n))
     top = repo.get_class(W + 'CBitcoinAddress')
     nw = top.methods['__new__']
     tries = [n for n in walk_no_nested(nw.node) if isinstance(n, ast.Try)]
@@ -334,8 +349,16 @@ def rule_escape(ctx, repo, eng):
     # a 5-bit symbol already limited to <= 16 by segwit_addr.decode
     def b58_version(e):
         new = repo.find_method('bitcoin.base58.CBase58Data', '__new__')
-        calls = [norm(c) for c in common.iter_calls(new.node) if norm(c.func) == 'cls.from_bytes']
-        return calls == ['cls.from_bytes(data, verbyte[0])'], 'the version passed by the text parser is one byte of the decoded string (0..255)'
+        calls = [c for c in common.iter_calls(new.node) if norm(c.func) == 'cls.from_bytes']
+        if len(calls) != 1 or len(calls[0].args) != 2:
+            return False, ''
+        v = common.resolved(new, calls[0].args[1], repo)
+        ok = isinstance(v, ast.Subscript) and not isinstance(v.slice, ast.Slice)
+        base_ = v.value if ok else None
+        while isinstance(base_, ast.Subscript) and isinstance(base_.slice, ast.Slice):
+            base_ = base_.value
+        ok = ok and isinstance(base_, ast.Call) and norm(base_.func) in ('decode', 'bitcoin.base58.decode')
+        return bool(ok), 'the version passed by the text parser is one byte of the decoded string (0..255)'
     just[('bitcoin.base58.CBase58Data.from_bytes', "ValueError('nVersion must be in range 0 to 255")] = b58_version
 
     def b32_version(e):
